@@ -322,10 +322,15 @@ def groupVisible (O : Oracles) (q : AggStmt) (g : List Env) : Bool :=
     | none => false)
 
 /-- D15: ARRAY_AGG whose first value in a group is NULL is refused ("cannot create array of null type") -/
+def firstNull (k : AggKind) (vs : List Value) : Bool :=
+  match k, vs with
+  | .arrayAgg _, v :: _ => v.isNull
+  | _, _ => false
+
 def arrayAggFirstNull (O : Oracles) (q : AggStmt) (g : List Env) : Bool :=
-  (slotKinds q).any (fun k => match k, arguments O q k g with
-    | .arrayAgg _, some (v :: _) => v.isNull
-    | _, _ => false)
+  (slotKinds q).any (fun k => match arguments O q k g with
+    | some vs => firstNull k vs
+    | none => false)
 
 def deviationClass (O : Oracles) (q : AggStmt) (envs : List Env) : String :=
   match keyedRows O q envs with
